@@ -27,6 +27,17 @@ import (
 type c06rCase struct {
 	Path string       `json:"path"`
 	Cfg  kit06.Config `json:"config"`
+	// TargetDB: 0 means target.db=-1, n>0 a fixed target database n-1
+	TargetDB int `json:"target_db_plus1,omitempty"`
+}
+
+// c06rObserved: the (source db, key) pairs that reached the target, from its command log.
+func c06rObserved(srv *mredis.Server, c c06rCase) (map[string]bool, string, string) {
+	var cmds []kit06.AppliedCmd
+	for _, a := range srv.Applied() {
+		cmds = append(cmds, kit06.AppliedCmd{DB: a.DB, Argv: a.Argv})
+	}
+	return kit06.Observed(cmds, c.TargetDB-1)
 }
 
 var c06rReg = mredis.NewRegistry()
@@ -45,10 +56,13 @@ func c06rCommon(c c06rCase) {
 	c.Cfg.Apply()
 	conf.Options.Parallel = 2
 	conf.Options.KeyExists = "none"
+	if c.TargetDB != 0 {
+		conf.Options.KeyExists = "rewrite" // the same key name arrives from several source databases
+	}
 	conf.Options.BigKeyThreshold = 1 << 30
 	conf.Options.TargetVersion = ""
 	conf.Options.TargetType = "standalone"
-	conf.Options.TargetDB = -1
+	conf.Options.TargetDB = c.TargetDB - 1
 	conf.Options.TargetReplace = true
 	conf.Options.Metric = true
 	conf.Options.ScanKeyNumber = 7
@@ -62,7 +76,7 @@ func c06Restore(c c06rCase) (string, string) {
 	for _, db := range kit06.DBs {
 		items = append(items, rdbgen.SelectDB(uint32(db), rdbgen.LCanon))
 		for _, k := range kit06.Keys() {
-			v := rdbgen.StringVal(rdbgen.RawStr([]byte("v"), rdbgen.LCanon))
+			v := rdbgen.StringVal(rdbgen.RawStr([]byte(kit06.Marker(db)), rdbgen.LCanon))
 			c06rReg.Add(v.Type, v.Raw, v.Log)
 			items = append(items, rdbgen.Key(rdbgen.RawStr([]byte(k), rdbgen.LCanon), v, rdbgen.KeyOpts{}))
 		}
@@ -91,7 +105,11 @@ func c06Restore(c c06rCase) (string, string) {
 	if aborted {
 		return "abort", "restore aborts"
 	}
-	if k, w := kit06.Compare(c.Cfg, "restore", c06rCollect(srv)); k != "" {
+	got, k, w := c06rObserved(srv, c)
+	if k != "" {
+		return k, w
+	}
+	if k, w := kit06.Compare(c.Cfg, "restore", got); k != "" {
 		return k, w
 	}
 	if n := len(srv.Scripts()); (n == 1) == c.Cfg.Lua {
@@ -123,7 +141,7 @@ func c06Rump(t *testing.T, c c06rCase) (kind, what string) {
 			dst := mredis.New(mredis.Options{Registry: reg})
 			for _, db := range kit06.DBs {
 				for _, k := range kit06.Keys() {
-					src.Put(db, k, &mredis.Entry{Kind: "string", Str: []byte("v")})
+					src.Put(db, k, &mredis.Entry{Kind: "string", Str: []byte(kit06.Marker(db))})
 				}
 			}
 			conn := func(s *mredis.Server, name string) redigo.Conn {
@@ -159,7 +177,11 @@ func c06Rump(t *testing.T, c c06rCase) (kind, what string) {
 			case !rt:
 				kind, what = "no-termination", "rump did not finish"
 			default:
-				kind, what = kit06.Compare(c.Cfg, "rump", c06rCollect(dst))
+				var got map[string]bool
+				got, kind, what = c06rObserved(dst, c)
+				if kind == "" {
+					kind, what = kit06.Compare(c.Cfg, "rump", got)
+				}
 			}
 		})
 	}()
@@ -202,22 +224,30 @@ func TestVerif_C06R(t *testing.T) {
 				ev.Cap("time budget")
 				break
 			}
-			c := c06rCase{Path: path, Cfg: cfg}
-			var k, w string
-			if path == "restore" {
-				k, w = c06Restore(c)
-			} else {
-				k, w = c06Rump(t, c)
+			// target.db = -1, every source database (filtered or not) as fixed target, one unused
+			tdbs := []int{0}
+			for _, db := range kit06.DBs {
+				tdbs = append(tdbs, db+1)
 			}
-			n++
-			if k != "" {
-				ev.Violate("C06|"+path+"|"+k, fmt.Sprintf("%s (path %s, %s)", w, path, cfg), c)
-			}
-			ev.Outcome(path + ":" + k)
-			h := ev.HashS(path + cfg.String())
-			ev.State(h)
-			if strings.Contains(cfg.String(), "[") {
-				ev.Nontrivial(h)
+			tdbs = append(tdbs, 5+1)
+			for _, tdb := range tdbs {
+				c := c06rCase{Path: path, Cfg: cfg, TargetDB: tdb}
+				var k, w string
+				if path == "restore" {
+					k, w = c06Restore(c)
+				} else {
+					k, w = c06Rump(t, c)
+				}
+				n++
+				if k != "" {
+					ev.Violate("C06|"+path+"|"+k, fmt.Sprintf("%s (path %s, target.db=%d, %s)", w, path, tdb-1, cfg), c)
+				}
+				ev.Outcome(path + ":" + k)
+				h := ev.HashS(fmt.Sprintf("%s%s%d", path, cfg.String(), tdb))
+				ev.State(h)
+				if strings.Contains(cfg.String(), "[") {
+					ev.Nontrivial(h)
+				}
 			}
 			if n%40 == 1 {
 				ev.Sample(path, map[string]interface{}{"config": cfg, "keys_per_db": len(kit06.Keys()), "dbs": kit06.DBs})
